@@ -58,7 +58,7 @@ def _show(idmap, r):
     st = [x.start for x in r.geoshapes]
     if any(a > b for a, b in zip(st, st[1:])):
         out += ' !UNSORTED'
-    return out
+    return out + U.stale(r)
 
 
 def _time(us):
@@ -109,11 +109,13 @@ def impl(line):
     tr = L['Track'](list(shapes))              # time-less shape -> ValueError -> ERR:Value
     if op == 'mk':
         return _show(idmap, tr)
+    U.warm(tr)
     before = U.snapshot(tr)
     if op == 'hist':
         outs, cur = [_show(idmap, tr)], tr
         for sec in secs[1:-1]:
             try:
+                U.warm(cur)
                 cur = _apply(cur, sec, idmap, keep)
                 outs.append(_show(idmap, cur))
             except Exception as e:  # noqa
